@@ -1,0 +1,34 @@
+//go:build verif
+
+package padding
+
+// Contracts for govc (contract-based deductive verification; see /verif/DESIGN.md).
+// This file holds only comments and is compiled only with -tags verif.
+
+//@ func PadPKCS7
+//@   tags C03 C07 C17
+//@   modifies nothing
+//@   ensures [C03.pad.badsize] (size <= 1 || size >= 256) ==> (result1 == ErrInvalidPKCS7BlockSize && result == nil)
+//@   ensures [C03.pad.ok] (size > 1 && size < 256) ==> result1 == nil
+//@   ensures [C03.pad.len] (size > 1 && size < 256) ==> len(result) == len(buf) + (size - len(buf) % size)
+//@   ensures [C03.pad.prefix] (size > 1 && size < 256) ==> (forall i :: 0 <= i && i < len(buf) ==> result[i] == old(buf[i]))
+//@   ensures [C03.pad.bytes] (size > 1 && size < 256) ==> (forall i :: len(buf) <= i && i < len(result) ==> result[i] == size - len(buf) % size)
+
+//@ func UnpadPKCS7
+//@   tags C03 C07 C17
+//@   modifies nothing
+//@   ensures [C03.unpad.badsize] (size <= 1 || size >= 256) ==> (result1 == ErrInvalidPKCS7BlockSize && result == nil)
+//@   ensures [C03.unpad.errs] result1 == nil || result1 == ErrInvalidPKCS7BlockSize || result1 == ErrInvalidPKCS7Padding
+//@   ensures [C03.unpad.empty] (size > 1 && size < 256 && len(buf) == 0) ==> (result1 == nil && len(result) == 0)
+//@   ensures [C03.unpad.accept] (size > 1 && size < 256 && len(buf) > 0 && result1 == nil) ==>
+//@       (len(buf) % size == 0 && 1 <= buf[len(buf)-1] && buf[len(buf)-1] <= size
+//@        && (forall i :: len(buf) - buf[len(buf)-1] <= i && i < len(buf) ==> buf[i] == buf[len(buf)-1])
+//@        && len(result) == len(buf) - buf[len(buf)-1]
+//@        && (forall i :: 0 <= i && i < len(result) ==> result[i] == buf[i]))
+//@   ensures [C03.unpad.reject] (size > 1 && size < 256 && len(buf) > 0 && result1 != nil) ==>
+//@       (result1 == ErrInvalidPKCS7Padding && result == nil &&
+//@        !(len(buf) % size == 0 && 1 <= buf[len(buf)-1] && buf[len(buf)-1] <= size
+//@          && (forall i :: len(buf) - buf[len(buf)-1] <= i && i < len(buf) ==> buf[i] == buf[len(buf)-1])))
+//@   loop 0 invariant l - padLen <= i && i <= l
+//@   loop 0 invariant forall j :: l - padLen <= j && j < i ==> buf[j] == padLenB
+//@   loop 0 decreases l - i
